@@ -467,6 +467,8 @@ def _trimstr(dbmodel, expression):
         + dbmodel.expr_to_sql(expression.args[1], want_inline_parens=False)
         + ", "
         + dbmodel.expr_to_sql(expression.args[2], want_inline_parens=False)
+        + " - "
+        + dbmodel.expr_to_sql(expression.args[1], want_inline_parens=False)
         + ")"
     )
 
